@@ -495,6 +495,77 @@ fn special_programs() -> Vec<(&'static str, Prog, &'static str, bool)> {
         "object() 7 3 null|4 1 true true true\n",
         true,
     ));
+    // instructions mean something when they execute, not when the file is loaded: a print whose format
+    // has an undefined escape, a placeholder/argument mismatch, a call of an unknown function, a class
+    // with duplicate members and a read of an unknown global are harmless in a method nobody calls
+    // and behind a goto, and fail only at the moment they run (after the earlier output)
+    let dead_consts = |entry_code: Vec<Ins>| -> Prog {
+        Prog {
+            consts: vec![
+                s("main"),                // 0
+                s("before\n"),            // 1
+                s("bad \\q escape"),       // 2
+                s("~ ~ needs two\n"),     // 3
+                Const::Int(1),            // 4
+                s("nosuch"),              // 5
+                s("after\n"),             // 6
+                s("skip"),                // 7
+                s("dead"),                // 8
+                s("dup"),                 // 9
+                Const::Slot(9),           // 10
+                Const::Class(vec![10, 10]), // 11
+                Const::Null,              // 12
+                Const::Method {
+                    name: 8,
+                    arity: 0,
+                    locals: 0,
+                    code: vec![
+                        Ins::Print(2, 0),
+                        Ins::Drop,
+                        Ins::Lit(4),
+                        Ins::Print(3, 1),
+                        Ins::Drop,
+                        Ins::Call(5, 0),
+                        Ins::Drop,
+                        Ins::GetGlobal(5),
+                        Ins::Drop,
+                        Ins::Lit(12),
+                        Ins::Lit(4),
+                        Ins::Lit(4),
+                        Ins::Object(11),
+                        Ins::Return,
+                    ],
+                }, // 13
+                Const::Method { name: 0, arity: 0, locals: 0, code: entry_code }, // 14
+            ],
+            globals: vec![13],
+            entry: 14,
+        }
+    };
+    v.push(("bad-instructions-in-uncalled-method", dead_consts(vec![Ins::Print(1, 0), Ins::Drop, Ins::Print(6, 0)]), "before\nafter\n", true));
+    v.push((
+        "bad-instructions-behind-goto",
+        dead_consts(vec![
+            Ins::Print(1, 0),
+            Ins::Drop,
+            Ins::Goto(7),
+            Ins::Print(2, 0),
+            Ins::Drop,
+            Ins::Lit(4),
+            Ins::Print(3, 1),
+            Ins::Drop,
+            Ins::Call(5, 0),
+            Ins::Drop,
+            Ins::Label(7),
+            Ins::Print(6, 0),
+        ]),
+        "before\nafter\n",
+        true,
+    ));
+    v.push(("bad-escape-fails-when-executed", dead_consts(vec![Ins::Print(1, 0), Ins::Drop, Ins::Print(2, 0), Ins::Drop, Ins::Print(6, 0)]), "before\n", false));
+    v.push(("placeholder-mismatch-fails-when-executed", dead_consts(vec![Ins::Print(1, 0), Ins::Drop, Ins::Lit(4), Ins::Print(3, 1), Ins::Drop, Ins::Print(6, 0)]), "before\n", false));
+    v.push(("unknown-function-fails-when-executed", dead_consts(vec![Ins::Print(1, 0), Ins::Drop, Ins::Call(5, 0), Ins::Drop, Ins::Print(6, 0)]), "before\n", false));
+    v.push(("dead-method-fails-when-called", dead_consts(vec![Ins::Print(1, 0), Ins::Drop, Ins::Call(8, 0), Ins::Drop, Ins::Print(6, 0)]), "before\n", false));
     v
 }
 
